@@ -126,7 +126,7 @@ def run_units(prop, stream, seed, indices, deadline=None, keep_failures=12, want
             if len(agg["samples"]) < 2 and st.get("nontrivial"):
                 agg["samples"].append(eng.describe(case))
         if want_unit_digests:
-            agg["unit_digests"][i] = env.digest(udig)[:16]
+            agg["unit_digests"]["%s:%d" % (stream, i)] = env.digest(udig)[:16]
     return agg
 
 
@@ -205,16 +205,22 @@ def _stream_acc(per_stream, stream, part):
     s["failures"] += sum(part["fail_counts"].values())
 
 
-def determinism_selfcheck(prop, seed, n_units=16):
+def determinism_selfcheck(prop, seed, n_units=16, pool_digests=None):
     """Re-run the first units of every stream in a *fresh interpreter* under a
-    different PYTHONHASHSEED with one worker and compare per-unit digests."""
+    different PYTHONHASHSEED with one worker and compare per-unit digests with
+    the ones the worker pool of this batch produced (first block of every
+    stream), or with a re-run in this process when there are none."""
     eng = engine_for(prop)
     plan, _cap = eng.plan("quick")
     mine = {}
     for stream, n in plan:
         k = min(n, n_units, getattr(eng, "BLOCK", BLOCK))
-        part = run_units(prop, stream, seed, list(range(k)), None, 0, True)
-        mine[stream] = part["unit_digests"]
+        have = {key: d for key, d in (pool_digests or {}).items() if key.startswith(stream + ":")}
+        if len(have) >= k:
+            mine[stream] = {key: d for key, d in have.items() if int(key.split(":")[1]) < k}
+        else:
+            part = run_units(prop, stream, seed, list(range(k)), None, 0, True)
+            mine[stream] = part["unit_digests"]
     envv = dict(os.environ)
     envv["PYTHONHASHSEED"] = "4242" if os.environ.get("PYTHONHASHSEED") != "4242" else "77"
     envv["VERIF_SEED"] = str(seed)
@@ -226,10 +232,10 @@ def determinism_selfcheck(prop, seed, n_units=16):
     checked = 0
     diverged = []
     for stream, d in mine.items():
-        for i, dg in d.items():
+        for key, dg in d.items():
             checked += 1
-            if other.get(stream, {}).get(str(i)) != dg:
-                diverged.append((stream, i))
+            if other.get(stream, {}).get(key) != dg:
+                diverged.append(key)
     return {"checked": checked, "diverged": len(diverged), "which": diverged[:5]}
 
 
@@ -240,7 +246,7 @@ def digests_cmd(prop, seed, n_units):
     for stream, n in plan:
         k = min(n, n_units, getattr(eng, "BLOCK", BLOCK))
         part = run_units(prop, stream, seed, list(range(k)), None, 0, True)
-        out[stream] = {str(i): d for i, d in part["unit_digests"].items()}
+        out[stream] = dict(part["unit_digests"])
     print(json.dumps(out, sort_keys=True))
     return 0
 
@@ -396,7 +402,7 @@ def check(prop, tier, workers=None, units=None, wall_cap=None, selfcheck=True):
 
     det = {"checked": 0, "diverged": 0}
     if selfcheck:
-        det = determinism_selfcheck(prop, seed)
+        det = determinism_selfcheck(prop, seed, pool_digests=total.get("unit_digests"))
         if det.get("diverged"):
             lines.append("HARNESS-ERROR: determinism self-check diverged: %s" % (det,))
             exit_code = max(exit_code, 2)
